@@ -68,6 +68,7 @@ def extract(repo):
     mb = body_after(lir[i:], "match *operator {", "lir.rs Statement::Binary `match *operator`")
     # split into arms: pattern => { body }
     wrap, strict_cmp = {}, {}
+    ref_strict = None
     pos = 0
     while True:
         m = re.compile(r"((?:\s*\|?\s*BinaryOperator::\w+)+)\s*=>\s*\{").search(mb, pos)
@@ -90,6 +91,13 @@ def extract(repo):
         order = [x for x in re.findall(r"\b(e1|e2)\.pretty_print", arm)]
         if not order or order[0] != "e1" or order[-1] != "e2":
             raise Shape(f"lir.rs Binary arm {'|'.join(names)}: operands not printed as e1 <op> e2")
+        if "EQ" in names or "NE" in names:
+            # reference operands: does the arm append `=` (=== / !==) when an operand is a reference?
+            has_flag = re.search(r"let is_ref_cmp\s*=[^;]*type_is_reference\(\)[^;]*;", arm) is not None
+            appends = re.search(r"if is_ref_cmp \{\s*collector\.push\('='\);\s*\}", arm) is not None
+            if has_flag != appends:
+                raise Shape("lir.rs Binary arm EQ/NE: is_ref_cmp computed but not used (or used but not computed)")
+            ref_strict = has_flag
         for n in names:
             if n in wrap:
                 raise Shape(f"lir.rs Binary: operator {n} matched twice")
@@ -112,10 +120,12 @@ def extract(repo):
     after = wasm[i + len(wb):i + len(wb) + 600]
     if 'collector.push_str("(i32.")' not in after or not re.search(r"v1\.pretty_print[\s\S]*v2\.pretty_print", after):
         raise Shape("wasm.rs: `(i32.<op> v1 v2)` printing not found after the op_s table")
-    return sym, wrap, wop
+    if ref_strict is None:
+        raise Shape("lir.rs Binary: no arm for EQ/NE")
+    return sym, wrap, wop, ref_strict
 
 
-def render(sym, wrap, wop):
+def render(sym, wrap, wop, ref_strict):
     out = ["-- GENERATED by /verif/extract/c04_tsops.py from /repo (hir.rs as_str, lir.rs Statement::Binary,",
            "-- wasm.rs InlineInstruction::Binary). Do not edit: rewritten on every `./check C04` run.",
            "import SamVerif.Model.BackendOps", "namespace SamVerif.Backends", "",
@@ -124,6 +134,8 @@ def render(sym, wrap, wop):
     out += [f"  | .{o} => (.{wrap[o]}, .{sym[o]})" for o in OPS]
     out += ["", "/-- WebAssembly opcode `i32.<op>` -/", "def wasmOpcode : Op → WOp"]
     out += [f"  | .{o} => .{wop[o]}" for o in OPS]
+    out += ["", "/-- EQ/NE on operands that are references at run time are printed as `===` / `!==` -/",
+            f"def tsRefCmpStrict : Bool := {'true' if ref_strict else 'false'}"]
     out += ["", "end SamVerif.Backends", ""]
     return "\n".join(out)
 
